@@ -60,6 +60,7 @@ ASSUMPTIONS = ['counts stay within the result dtype (the property\'s side condit
 DTYPES = {'uint8': torch.uint8, 'int16': torch.int16, 'int32': torch.int32, 'int64': torch.int64,
           'float32': torch.float32, 'float64': torch.float64}
 DEFAULT_MAXD = 100
+MAX_CELLS = 400000
 
 
 def _vec(kind, xs, xdtype, rng_index=None):
@@ -248,6 +249,8 @@ def run_call(call, objs):
         else:
             raise KeyError(kind)
         y = y.detach().cpu()
+        if y.numel() > MAX_CELLS:      # no call generated here has that many cells to return
+            return {'ok': True, 'rank': 'huge', 'val': None}
         if kind == 'kmers' and call['scores'] is not None:
             val = [[[Fraction(v).numerator, Fraction(v).denominator] for v in row]
                    for row in y.to(torch.float64).tolist()]
